@@ -22,6 +22,12 @@ LEVEL = "exploration"
 
 def codec_variant(rng, codec, data):
     """(bytes, description) of `data` in a randomly parameterised container."""
+    if codec == "gz" and rng.random() < 0.08 and len(data) > 2:
+        # several gzip members in one file (`cat a.gz b.gz`, `gzip -c x >> a.gz`): a valid gzip file that gunzip restores whole
+        k = rng.choice([2, 2, 3])
+        cuts = sorted(rng.sample(range(1, len(data)), k - 1))
+        parts = [data[a:b] for a, b in zip([0] + cuts, cuts + [len(data)])]
+        return b"".join(gen.gz_bytes(p_, level=rng.choice([1, 6])) for p_ in parts), "gz members=%d" % k
     if codec == "gz":
         kw = dict(level=rng.choice([1, 6, 9]), stored=rng.random() < 0.25, mtime=rng.choice([0, 1_600_000_000]),
                   fname=rng.choice([None, b"orig.log", b"x" * 300]), comment=rng.choice([None, None, b"a comment"]),
@@ -155,6 +161,8 @@ def run_inprocess(ctx, rng):
             sig = "C05|inprocess|%s|lines-differ-from-plain" % desc.split()[0]
             if allm and all("Unsupported SHA-256 checksum" in l for l in allm):
                 sig = "C05|xz|sha256-check-unsupported"
+            if desc.startswith("gz members="):
+                sig = "C05|gz|several-members|only-the-part-announced-by-the-last-trailer-is-read"
             ctx.violation(sig, "%s: %s" % (desc, "; ".join(first)), files={"input": data, "harness.out": r.out}, info={"argv": r.argv})
 
 
@@ -277,6 +285,8 @@ def run(ctx):
                 sig = "C05|%s|%s|%s" % (k0, codec, how)
                 if codec == "xz" and "check=10" in desc and not rc.out and b"Unsupported SHA-256 checksum" in rc.err:
                     sig = "C05|xz|sha256-check-unsupported"
+                if codec == "gz" and "members=" in desc:
+                    sig = "C05|gz|several-members|only-the-part-announced-by-the-last-trailer-is-read"
                 if codec == "bz2" and not rc.out and b"huffman bitstream truncated" in rc.err:
                     # bzip2-rs buffers at most one block-size of *compressed* bytes per block: a block of incompressible data,
                     # which bzip2 stores slightly expanded, cannot be decoded
